@@ -2,6 +2,7 @@
 package c15
 
 import (
+	"github.com/apache/skywalking-banyandb/banyand/internal/verif/simknobs"
 	"fmt"
 	"path/filepath"
 	"sort"
@@ -97,6 +98,9 @@ func vecFlags(tp *simcore.Tape, engine string) [2][]string {
 
 func runMeasure(e *simcore.Env, tp *simcore.Tape) {
 	synctest.Test(e.T, func(*testing.T) {
+		knobDesc, knobRestore := simknobs.Draw(tp, "measure")
+		defer knobRestore()
+		e.Event("%s", knobDesc)
 		s := wl.GenMeasureSchema(tp, wl.SchemaOpts{MaxShards: 3})
 		flags := []string{"--measure-flush-timeout=" + []string{"1s", "5s"}[tp.Choose(2)], fmt.Sprintf("--measure-max-merge-parts=%d", tp.Range(2, 6))}
 		twinFlags := vecFlags(tp, "measure")
@@ -362,6 +366,9 @@ type sstep struct {
 
 func runStream(e *simcore.Env, tp *simcore.Tape) {
 	synctest.Test(e.T, func(*testing.T) {
+		knobDesc, knobRestore := simknobs.Draw(tp, "stream")
+		defer knobRestore()
+		e.Event("%s", knobDesc)
 		s := wl.GenStreamSchema(tp, wl.SchemaOpts{MaxShards: 3})
 		flags := []string{"--stream-flush-timeout=" + []string{"1s", "5s"}[tp.Choose(2)], fmt.Sprintf("--stream-max-merge-parts=%d", tp.Range(2, 6))}
 		twinFlags := vecFlags(tp, "stream")
